@@ -187,7 +187,11 @@ func clientOffers(i *IPC, w http.ResponseWriter, r *http.Request) {
 			w.WriteHeader(http.StatusGatewayTimeout)
 			return
 		default:
-			panic("unknown error")
+			// Any other error reported in the response (e.g. an invalid
+			// NAT type taken from the Snowflake-NAT-Type header) means
+			// the request was malformed.
+			w.WriteHeader(http.StatusBadRequest)
+			return
 		}
 	}
 
